@@ -992,7 +992,12 @@ def _gen_package(rnd, n_parts):
             ids = ["rId%d" % (3 * i + 2) for i in range(len(ids))]
         elif style == 2:
             ids = [rnd.choice(["rIdImage%d", "rId%da", "R%d", "rId0%d", "id%d"]) % (i + 1) for i in range(len(ids))]
-        body = "".join('<Relationship Id="%s" Type="http://t/%d" Target="%s"%s/>' % (ids[i], i % 3, (t if ext else ref(u, t)), ' TargetMode="External"' if ext else "")
+        # relationship types as other producers spell them: Transitional, Strict-conformance (purl.oclc.org), vendor-specific, mixed case
+        types = ["http://t/%d", "http://purl.oclc.org/ooxml/officeDocument/relationships/kind%d", "http://schemas.openxmlformats.org/officeDocument/2006/relationships/kind%d",
+                 "http://schemas.microsoft.com/office/2007/relationships/kind%d", "HTTP://Vendor.example/Rel%d", "urn:x-rel:%d"]
+        tstyle = rnd.randrange(len(types) + 1)
+        tof = lambda i: (types[tstyle] if tstyle < len(types) else types[i % len(types)]) % (i % 3)
+        body = "".join('<Relationship Id="%s" Type="%s" Target="%s"%s/>' % (ids[i], tof(i), (t if ext else ref(u, t)), ' TargetMode="External"' if ext else "")
                        for i, (t, ext) in enumerate(edges[u]))
         return ('<?xml version="1.0" encoding="UTF-8" standalone="yes"?>\n<Relationships xmlns="http://schemas.openxmlformats.org/package/2006/relationships">%s</Relationships>' % body).encode()
 
